@@ -194,6 +194,16 @@ class SymProver:
     def le(self, a, b, tol=None):
         return a <= b
 
+    def close(self, a, b, eps=1e-9):
+        """equality up to a relative tolerance, for quantities into which the code under analysis folded concrete
+        float arithmetic (e.g. p*(1-p) of a concrete allele frequency) before they met symbolic values"""
+        if is_nan(a) or is_nan(b):
+            return is_nan(a) and is_nan(b)
+        def ab(x):
+            return Ite(x >= 0, x, -x) if isinstance(x, SV) else abs(x)
+        bound = eps * (1.0 + ab(a) + ab(b))
+        return And(a - b <= bound, b - a <= bound)
+
     def fail(self, label, detail=None):
         self.prove(False, label, detail)
 
@@ -228,6 +238,9 @@ class ConcreteProver:
     def le(self, a, b, tol=None):
         tol = self.tol if tol is None else tol
         return float(a) <= float(b) + tol * (1.0 + max(abs(float(a)), abs(float(b))))
+
+    def close(self, a, b, eps=1e-9):
+        return self.eq(a, b, max(eps, self.tol))
 
     def fail(self, label, detail=None):
         self.prove(False, label, detail)
